@@ -323,3 +323,23 @@ Definition nearest_scaled (b vn vd q e : Z) : Prop :=
 (* automatic places: sign shown for an integer-valued number *)
 Definition shown_negative_auto (d : dec) (ns M : Z) : bool :=
   if is_neg d then (if 2 <=? ns then true else if 1 <=? ns then false else 0 <? M) else false.
+
+(* repr(float) uses positional notation for 1e-4 <= |x| < 1e16; with the thousands separator on, the text
+   is re-parsed by sigfig and always positional.  m * 10^e: the digits without trailing zeros. *)
+Definition positional (sep : bool) (m e : Z) : bool :=
+  sep || ((-4 <=? ndig m - 1 + e) && (ndig m - 1 + e <? 16)).
+
+(* ---------- _expand_quotes (custom format strings) ---------- *)
+(* removes the quotes of quoted literals; '' is a literal quote; a trailing lone quote ends the scan.
+   (the in_string flag of the code is toggled but never read) *)
+Fixpoint expand_quotes (s : list N) (in_string : bool) : list N :=
+  match s with
+  | [] => []
+  | c :: r =>
+    if (c =? 39)%N then
+      match r with
+      | [] => []
+      | c2 :: r2 => if (c2 =? 39)%N then 39%N :: expand_quotes r2 in_string else expand_quotes r (negb in_string)
+      end
+    else c :: expand_quotes r in_string
+  end.
